@@ -62,6 +62,30 @@ def dict_ids(x, acc):
     return acc
 
 
+YAML_DOCS = []      # every document object the configuration code loaded from yaml, with a deep copy taken at load time
+
+
+def record_yaml_documents():
+    """harness-side monkeypatch: LanguageConfig.update_from_yaml_* call nunavut.lang._config.yaml_loader"""
+    import nunavut.lang._config as cfgmod
+    real = cfgmod.yaml_loader
+    if getattr(real, '_c13_recording', False):
+        return
+
+    def loader(*args, **kwargs):
+        doc = real(*args, **kwargs)
+        YAML_DOCS.append((doc, copy.deepcopy(doc)))
+        return doc
+    loader._c13_recording = True
+    cfgmod.yaml_loader = loader
+
+
+def yaml_documents_unmodified(start):
+    """deep comparison (dicts, nested lists, scalars) of every yaml-loaded source document with its copy from load time"""
+    bad = [i for i, (doc, snap) in enumerate(YAML_DOCS[start:]) if doc != snap]
+    return {'checked': len(YAML_DOCS) - start, 'modified': bad}
+
+
 def do_merge(r):
     base = from_v(r['base'])
     srcs = [from_v(s) for s in r['srcs']]
@@ -108,6 +132,8 @@ def observe(ctx):
 
 
 def do_proc(r, tmp):
+    record_yaml_documents()
+    y0 = len(YAML_DOCS)
     builders, contexts, creates, kept = [], [], [], []
     nfile = 0
     for op in r['ops']:
@@ -153,7 +179,8 @@ def do_proc(r, tmp):
             'final': [to_v(b.config.sections()) for b in builders],
             'ctx_final': [[i, snapshot_ctx(c)] for i, c in contexts],
             'ctx_obs_final': [observe(c) for _, c in contexts],
-            'docs_unmodified': all(a == b for a, b in kept)}
+            'docs_unmodified': all(a == b for a, b in kept),
+            'yaml_docs': yaml_documents_unmodified(y0)}
 
 
 ARG_NAMES = ['target_language', 'output_extension', 'namespace_output_stem', 'target_endianness', 'omit_float_serialization_support',
@@ -163,6 +190,8 @@ ARG_NAMES = ['target_language', 'output_extension', 'namespace_output_stem', 'ta
 def do_cli(r, tmp):
     from nunavut.cli import _make_parser
     from nunavut.cli.runners import ArgparseRunner
+    record_yaml_documents()
+    y0 = len(YAML_DOCS)
     argv = list(r['argv'])
     for n, doc in enumerate(r['files']):     # one --configuration option followed by all files (nargs='*')
         path = os.path.join(tmp, 'c%d.yaml' % n)
@@ -177,6 +206,7 @@ def do_cli(r, tmp):
         ctx = runner._create_language_context()
         out = observe(ctx)
         out['args'] = seen
+        out['yaml_docs'] = yaml_documents_unmodified(y0)
         return out
     except Exception as ex:  # noqa
         return {'args': seen, 'options': 'ERR', 'error': repr(ex)}
